@@ -46,6 +46,9 @@ var parserWorkReceiveChannel = func() chan<- jobIn {
 
 		getWorkLoop:
 			for job := range inChan {
+				if len(job.lines) > 0 {
+					verifWorkerDelay(job.lines[0])
+				}
 				outJobs := make([]jobOutRecord, len(job.lines))
 				for i := range outJobs {
 					out := &outJobs[i]
